@@ -314,7 +314,7 @@ func (s StructDecl) homeRef() string {
 
 var paramNames = []string{"in", "from", "s", "p"}
 var resultNames = []string{"out", "to", "d", "res"}
-var extraTypes = []string{"int", "string", "LInt", "*LInner", "ext.MyInt", "[]int", "bool"}
+var extraTypes = []string{"int", "string", "LInt", "*LInner", "ext.MyInt", "[]int", "bool", "[]LInt", "map[string]ext.MyInt", "[]*ext.Inner", "func(LInt) ext.MyInt"}
 
 // GenShape draws the shape dimensions of a method (only legal combinations; C08 enumerates the
 // illegal ones separately).
